@@ -628,4 +628,213 @@ theorem plain_tail_header (r : List Char) : PlainExtra ('\n' :: tokOf (' ' :: r)
 theorem plain_tail_eof : PlainExtra ('\n' :: tokOf [Char.ofNat 0]) := by
   right; right; decide
 
+
+/-! ### REAL (ECL flavour) and the IX flavour of both types -/
+
+theorem eclReal_shape (s : Sci) (h : SciOk 7 s) (h2 : s.exp.natAbs < 98) :
+    (eclReal s).length = (if s.neg then 15 else 14) ∧ NoSp (eclReal s) ∧ eclReal s ≠ [] ∧
+      (eclReal s).head? ≠ some ' ' := by
+  have hx : (s.exp + 1).natAbs < 100 := by omega
+  have hl := expField_length_two (s.exp + 1) hx
+  have hns := expField_noSp (s.exp + 1) (by omega)
+  refine ⟨?_, ?_, ?_, ?_⟩
+  · unfold eclReal
+    simp only [List.length_append, List.length_cons, List.length_nil, h.len, hl]
+    cases s.neg <;> simp
+  · intro c hc
+    unfold eclReal at hc
+    simp only [List.mem_append, List.mem_cons, List.mem_nil_iff, or_false] at hc
+    rcases hc with (((hc | hc) | hc) | hc) | hc
+    · split at hc <;> simp at hc; subst hc; decide
+    · rcases hc with rfl | rfl <;> decide
+    · exact (digit_not_sign c (h.dig c hc)).2.2
+    · subst hc; decide
+    · exact hns c hc
+  · unfold eclReal; cases s.neg <;> simp
+  · unfold eclReal; cases s.neg <;> simp
+
+theorem realField_good (s : Sci) (h : SciOk 7 s) (h2 : s.exp.natAbs < 98) :
+    GoodField (realField (eclReal s)) ∧ dropSp (realField (eclReal s)) = eclReal s ∧
+      (realField (eclReal s)).length = Gen.EclIO.columnWidthReal := by
+  obtain ⟨hl, hns, hne, hh⟩ := eclReal_shape s h h2
+  have hle : (eclReal s).length ≤ 15 := by rw [hl]; split <;> omega
+  have heq : realField (eclReal s) =
+      List.replicate ((17 - (eclReal s).length - 1) + 1) ' ' ++ eclReal s := by
+    unfold realField Unrst.setw
+    simp only [Gen.EclIO.columnWidthReal]
+    congr 2; omega
+  have hg := goodField_of_body hne hh hns (17 - (eclReal s).length - 1)
+  rw [← heq] at hg
+  refine ⟨hg.1, hg.2, ?_⟩
+  rw [heq, List.length_append, List.length_replicate]
+  simp only [Gen.EclIO.columnWidthReal]; omega
+
+/-- REAL: the token reaches `std::stod` unchanged; the number recognised is the 8-digit decimal
+`snprintf` printed. -/
+theorem real_token_value (s : Sci) (h : SciOk 7 s) (h2 : s.exp.natAbs < 98) (extra : List Char)
+    (hp : PlainExtra extra) :
+    parseDec (cstr (eclReal s ++ extra)) = .num s.neg (decVal s.digits) (s.exp - 7) 8 := by
+  have hx : (s.exp + 1).natAbs < 10 ^ 12 := by omega
+  obtain ⟨hv, hed, hedn, _⟩ := expDigits_spec (s.exp + 1) hx
+  have hedl : (expDigits (s.exp + 1)).length ≤ 6 := by
+    rw [expDigits_length (s.exp + 1) (by omega)]; split <;> omega
+  have hform : eclReal s ++ extra = ((if s.neg then ['-'] else []) ++ '0' :: '.' :: (s.digits ++ 'E' ::
+      signChar (s.exp + 1) :: expDigits (s.exp + 1))) ++ extra := by
+    unfold eclReal; rw [expField_eq]; simp [signChar]
+  have hpre : ∀ x ∈ (if s.neg then ['-'] else []) ++ '0' :: '.' :: (s.digits ++ 'E' :: signChar (s.exp + 1) ::
+      expDigits (s.exp + 1)), (fun c => decide (c ≠ Char.ofNat 0)) x = true := by
+    intro x hxm
+    simp only [List.mem_append, List.mem_cons, List.mem_nil_iff, or_false] at hxm
+    have : x ≠ Char.ofNat 0 := by
+      rcases hxm with hxm | rfl | rfl | hxm | rfl | rfl | hxm
+      · split at hxm <;> simp at hxm; subst hxm; decide
+      · decide
+      · decide
+      · exact (digit_misc x (h.dig x hxm)).2.2.2.2
+      · decide
+      · rcases signChar_pm (s.exp + 1) with h' | h' <;> rw [h'] <;> decide
+      · exact (digit_misc x (hed x hxm)).2.2.2.2
+    simpa using this
+  have hc : cstr (eclReal s ++ extra) = (if s.neg then ['-'] else []) ++ '0' :: '.' :: (s.digits ++ 'E' ::
+      signChar (s.exp + 1) :: (expDigits (s.exp + 1) ++ cstr extra)) := by
+    rw [hform]; unfold cstr
+    rw [takeWhile_append_all _ _ _ hpre]; simp
+  rw [hc]
+  have he' : NonDigitHead (cstr extra) := by
+    rcases cstr_plain extra hp with h' | h' <;> rw [h'] <;> intro c hc' <;> simp at hc'
+    subst hc'; decide
+  rw [parseDec_canon s.neg s.digits (expDigits (s.exp + 1)) (cstr extra) (signChar (s.exp + 1))
+    (signChar_pm _) h.dig hed hedn hedl he']
+  rw [hv, h.len, dropWhile_zero_of_lead s.digits h.lead, h.len]
+  congr 1
+  unfold signChar
+  split
+  · rename_i hneg; simp; omega
+  · rename_i hpos
+    have : ¬ (('+' : Char) = '-') := by decide
+    simp only [this, if_false]; omega
+
+def sciNumberReal (s : Sci) : Dec := .num s.neg (decVal s.digits) (s.exp - 7) 8
+
+/-- **Formatted REAL array, value level** (ECL flavour). -/
+theorem real_array_numbers (scis : List Sci) (h : ∀ s ∈ scis, SciOk 7 s ∧ s.exp.natAbs < 98) (tail : List Char)
+    (ht : PlainExtra ('\n' :: tokOf tail)) :
+    ∃ toks, parseData .real scis.length
+        (numericBody .real (scis.map fun s => realField (eclReal s)) ++ tail) = some (.toks toks) ∧
+      toks.map tokenNumber = scis.map sciNumberReal := by
+  have hg : ∀ f ∈ scis.map (fun s => realField (eclReal s)), GoodField f := by
+    intro f hf; obtain ⟨x, hx, rfl⟩ := List.mem_map.mp hf; exact (realField_good x (h x hx).1 (h x hx).2).1
+  obtain ⟨toks, hr, hrel⟩ := readToks_fmtLoop_plain (fmtParams .real).2.1 (fmtParams .real).1
+    (scis.map fun s => realField (eclReal s)) 0 tail hg
+  rw [List.length_map] at hr
+  refine ⟨toks, ?_, ?_⟩
+  · simp only [parseData, numericBody]; rw [hr]; rfl
+  · have hrel' : All2 (fun (s : Sci) tok => TokRelP tail (realField (eclReal s)) tok) scis toks := by
+      clear hr hg
+      induction scis generalizing toks with
+      | nil => cases hrel; exact All2.nil
+      | cons x xs ih =>
+        cases hrel with
+        | cons h1 h2 => exact All2.cons h1 (ih (fun y hy => h y (by simp [hy])) _ h2)
+    refine map_of_all2 _ tokenNumber sciNumberReal scis toks hrel' ?_
+    intro x hx tok ⟨extra, htok, hex⟩
+    have hp : PlainExtra extra := by
+      rcases hex with rfl | rfl | rfl
+      · exact Or.inl rfl
+      · exact Or.inr (Or.inl rfl)
+      · exact ht
+    simp only [tokenNumber, sciNumberReal]
+    rw [htok, (realField_good x (h x hx).1 (h x hx).2).2.1]
+    exact real_token_value x (h x hx).1 (h x hx).2 extra hp
+
+
+/-! ### IX flavour: the `snprintf` text itself is the field -/
+
+theorem parseDec_sci (neg : Bool) (d0 : Char) (rest ed e' : List Char) (sg : Char) (hsg : sg = '+' ∨ sg = '-')
+    (hd0 : isDigitC d0 = true) (hd : ∀ c ∈ rest, isDigitC c = true) (hed : ∀ c ∈ ed, isDigitC c = true)
+    (hedn : ed ≠ []) (hedl : ed.length ≤ 6) (he : NonDigitHead e') :
+    parseDec ((if neg then ['-'] else []) ++ d0 :: '.' :: (rest ++ 'E' :: sg :: (ed ++ e'))) =
+      .num neg (decVal (d0 :: rest)) ((if sg = '-' then -(decVal ed : Int) else (decVal ed : Int)) - rest.length)
+        ((d0 :: rest).dropWhile (· = '0')).length := by
+  have hE : NonDigitHead ('E' :: sg :: (ed ++ e')) := by intro c hc; simp at hc; subst hc; decide
+  have h1 := takeWhile_digits rest _ hd hE
+  have h2 := dropWhile_digits rest _ hd hE
+  have hexp := expOf_canon sg hsg ed e' hed hedn hedl he
+  have hsp := digit_not_space d0 hd0
+  obtain ⟨hm, hp, _⟩ := digit_not_sign d0 hd0
+  generalize hR : rest ++ 'E' :: sg :: (ed ++ e') = R at h1 h2
+  have hs2 : afterSign (((if neg then ['-'] else []) ++ d0 :: '.' :: R).dropWhile isSp) = d0 :: '.' :: R := by
+    cases neg
+    · simp [afterSign, isSp_eq, List.dropWhile_cons, hsp, hm, hp]
+    · have : isSp '-' = false := by decide
+      simp [afterSign, List.dropWhile_cons, this]
+  have hsg' : signOf (((if neg then ['-'] else []) ++ d0 :: '.' :: R).dropWhile isSp) = neg := by
+    cases neg
+    · simp [signOf, isSp_eq, List.dropWhile_cons, hsp, hm]
+    · have : isSp '-' = false := by decide
+      simp [signOf, List.dropWhile_cons, this]
+  have hdot : isDigitC '.' = false := by decide
+  have hip : (d0 :: '.' :: R).takeWhile isDig = [d0] := by
+    simp [List.takeWhile_cons, isDig_eq, hd0, hdot]
+  have hs3 : (d0 :: '.' :: R).dropWhile isDig = '.' :: R := by
+    simp [List.dropWhile_cons, isDig_eq, hd0, hdot]
+  have hfp : fracPart ('.' :: R) = rest := by simp only [fracPart, isDig_eq, h1]
+  have hs4 : afterFrac ('.' :: R) = 'E' :: sg :: (ed ++ e') := by simp only [afterFrac, isDig_eq, h2]
+  unfold parseDec
+  simp only [hs2, hsg', hip, hs3, hfp, hs4, hexp, dval_eq]
+  have hh : ¬ ((('.' :: R).head? = some 'x') ∨ (('.' :: R).head? = some 'X')) := by simp
+  simp only [List.cons_ne_nil, false_and, if_false, hh, and_false, List.cons_append, List.nil_append]
+
+/-- IX flavour (both types): the token is the `snprintf` text; the number recognised is the
+printed one. -/
+theorem ix_token_value (p : Nat) (s : Sci) (h : SciOk p s) (extra : List Char) (hp : PlainExtra extra) :
+    parseDec (cstr (sciText s ++ extra)) = .num s.neg (decVal s.digits) (s.exp - p) (p + 1) := by
+  obtain ⟨d0, rest, hdg, hrl⟩ : ∃ d0 rest, s.digits = d0 :: rest ∧ rest.length = p := by
+    cases hd : s.digits with
+    | nil => have := h.len; rw [hd] at this; simp at this
+    | cons d0 rest => exact ⟨d0, rest, rfl, by have := h.len; rw [hd] at this; simpa using this⟩
+  have hx : s.exp.natAbs < 10 ^ 12 := by have := h.exp3; omega
+  obtain ⟨hv, hed, hedn, _⟩ := expDigits_spec s.exp hx
+  have hedl : (expDigits s.exp).length ≤ 6 := by
+    rw [expDigits_length s.exp (by have := h.exp3; omega)]; split <;> omega
+  have hd0 : isDigitC d0 = true := h.dig d0 (by rw [hdg]; simp)
+  have hdr : ∀ c ∈ rest, isDigitC c = true := fun c hc => h.dig c (by rw [hdg]; simp [hc])
+  have hform : sciText s ++ extra = ((if s.neg then ['-'] else []) ++ d0 :: '.' :: (rest ++ 'E' ::
+      signChar s.exp :: expDigits s.exp)) ++ extra := by
+    unfold sciText; rw [hdg, expField_eq]; simp [signChar]
+  have hpre : ∀ x ∈ (if s.neg then ['-'] else []) ++ d0 :: '.' :: (rest ++ 'E' :: signChar s.exp ::
+      expDigits s.exp), (fun c => decide (c ≠ Char.ofNat 0)) x = true := by
+    intro x hxm
+    simp only [List.mem_append, List.mem_cons, List.mem_nil_iff, or_false] at hxm
+    have : x ≠ Char.ofNat 0 := by
+      rcases hxm with hxm | rfl | rfl | hxm | rfl | rfl | hxm
+      · split at hxm <;> simp at hxm; subst hxm; decide
+      · exact (digit_misc x hd0).2.2.2.2
+      · decide
+      · exact (digit_misc x (hdr x hxm)).2.2.2.2
+      · decide
+      · rcases signChar_pm s.exp with h' | h' <;> rw [h'] <;> decide
+      · exact (digit_misc x (hed x hxm)).2.2.2.2
+    simpa using this
+  have hc : cstr (sciText s ++ extra) = (if s.neg then ['-'] else []) ++ d0 :: '.' :: (rest ++ 'E' ::
+      signChar s.exp :: (expDigits s.exp ++ cstr extra)) := by
+    rw [hform]; unfold cstr
+    rw [takeWhile_append_all _ _ _ hpre]; simp
+  rw [hc]
+  have he' : NonDigitHead (cstr extra) := by
+    rcases cstr_plain extra hp with h' | h' <;> rw [h'] <;> intro c hc' <;> simp at hc'
+    subst hc'; decide
+  rw [parseDec_sci s.neg d0 rest (expDigits s.exp) (cstr extra) (signChar s.exp)
+    (signChar_pm _) hd0 hdr hed hedn hedl he']
+  have hlead : (d0 :: rest).dropWhile (· = '0') = d0 :: rest := by
+    apply dropWhile_zero_of_lead; have := h.lead; rw [hdg] at this; exact this
+  rw [hv, hrl, hlead, hdg, List.length_cons, hrl]
+  congr 1
+  unfold signChar
+  split
+  · rename_i hneg; simp; omega
+  · rename_i hpos
+    have : ¬ (('+' : Char) = '-') := by decide
+    simp only [this, if_false]; omega
+
 end OpmVerif.FmtReal
